@@ -19,8 +19,16 @@ func (vc *VC) fieldName(structT types.Type, f *types.Var) string {
 	if f.Pkg() != nil {
 		heapPkg[n] = f.Pkg().Path()
 	}
+	switch types.Unalias(f.Type()).Underlying().(type) {
+	case *types.Pointer, *types.Chan, *types.Map:
+		heapRefLike[n] = true
+	}
 	return n
 }
+
+// heapRefLike: field arrays whose values are references (pointers, channels, maps); on entry
+// every such value was allocated before the call, i.e. is <= alloc$base.
+var heapRefLike = map[string]bool{}
 
 func (vc *VC) readField(st *State, base Term, structT types.Type, f *types.Var) Term {
 	name := vc.fieldName(structT, f)
